@@ -3,6 +3,7 @@
 //!   SCR <id> PLANES <stale0>/<stale1>/<stale2>/<stale3>/<stale4> <signal>
 //!   SCR <id> CACHE <alpha|r>:<size>,...           lookups on one thread, each compared with a direct computation
 //!   SCR <id> KEY <lo> <hi>                        window_fingerprint over all alpha bit patterns lo..hi
+//!   SCR <id> QERR <stale> <coefs> <shift> <prec> <signal>   compute_error on a reused buffer holding <stale>
 use crate::rng::Rng;
 use crate::sig;
 use std::fmt::Write as _;
@@ -16,7 +17,26 @@ pub fn gen(seed: u64, n: usize, out: &mut String) {
     let top: u64 = 0x3F80_0000 + 1;
     for k in 0..32u64 { writeln!(out, "SCR sk{} KEY {} {}", k, top * k / 32, top * (k + 1) / 32).unwrap(); }
     for i in 0..n {
-        match r.below(5) {
+        match r.below(6) {
+            5 => {
+                // QLPC error buffer: coefficients of precision 2..15, shift 1..15 (0 only with small signals), signals that
+                // are small, large (24/25 bit), or sit right at the boundary  maxabs * sum|coef| = 2^31 - 1  between the
+                // i32 path and the 64-bit path of compute_error
+                let n = *r.pick(&[1usize, 2, 16, 63, 64, 65, 100, 192, 256]);
+                let order = (1 + r.below(12) as usize).min(n);
+                let prec = 2 + r.below(14) as usize;
+                let lim: i64 = (1i64 << (prec - 1)) - 1;
+                let coefs: Vec<i64> = (0..order).map(|_| match r.below(4) { 0 => lim, 1 => -lim - 1 + 1, _ => r.range(-lim, lim) }).collect();
+                let sumabs: i64 = coefs.iter().map(|c| c.abs()).sum::<i64>().max(1);
+                let mode = r.below(4);
+                let shift = if mode == 0 { r.below(16) } else { 1 + r.below(15) };
+                let m: i64 = match mode { 0 => 1 << 12, 1 => (1 << 24) - 1, 2 => (1i64 << 24),
+                    _ => { let m0 = ((1i64 << 31) - 1) / sumabs; (m0 + r.range(-2, 3)).clamp(1, 1 << 28) } };
+                let mut s: Vec<i64> = (0..n).map(|_| r.range(-m, m)).collect();
+                let k = r.below(n as u64) as usize; s[k] = if r.chance(1, 2) { m } else { -m };
+                let stale: Vec<i64> = { let l = r.below(2 * n as u64 + 3); (0..l).map(|_| r.range(-(1 << 31), (1 << 31) - 1)).collect() };
+                writeln!(out, "SCR s{} QERR {} {} {} {} {}", i, lst(&stale), lst(&coefs), shift, prec, lst(&s)).unwrap();
+            }
             0 | 1 => {
                 let bps = *r.pick(&[8usize, 16, 24]);
                 let len = *r.pick(&[64usize, 65, 100, 128, 192, 256, 320, 512, 1024, 4096]);
@@ -69,6 +89,16 @@ pub fn run(id: &str, rest: &str) -> String {
             let planes = flacenc::verif::coding::fixed_errors_with_stale(&stale, &s);
             let body: Vec<String> = planes.iter().map(|(lanes, len)| format!("{}:{}", len, lst(lanes))).collect();
             format!("{} ok {}", id, body.join(" "))
+        }
+        "QERR" => {
+            let stale: Vec<i32> = pl(t[1]); let coefs: Vec<i16> = pl(t[2]);
+            let shift: i8 = t[3].parse().unwrap(); let prec: usize = t[4].parse().unwrap();
+            let s: Vec<i32> = pl(t[5]);
+            let q = flacenc::verif::lpc::from_parts(&coefs, shift, prec);
+            let mut errors = stale.clone();
+            errors.resize(s.len(), 0i32);          // what estimated_qlpc does with the thread-local buffer
+            flacenc::verif::lpc::error(&q, &s, &mut errors);
+            format!("{} ok {}", id, lst(&errors))
         }
         "CACHE" => {
             let reqs: Vec<(Option<u32>, usize)> = t[1].split(',').map(|x| { let (a, s) = x.split_once(':').unwrap();
